@@ -159,8 +159,8 @@ def check(ctx):
     # failures of a LATER attempt / of a fallback (Catch, OnErrorResumeNextWith, Retry*, also when that attempt runs on a goroutine of
     # its own and fails after the operator's Subscribe has returned) surface once as the Error of the output: the delivered trace of the
     # re-subscribing operators' runs (loops and closed forms: RoProps/C15), read through C07's projection
-    rrows = [r for r in R.run_kind(ctx, 'resub') if re.search(r'\bop=(Catch|OnErrorResumeNextWith|Retry|RetryWithConfig)\b', r[0])]
-    R.compare(ctx, rrows, lambda d: (flag(d), strip_ctx(d.get('trace'))), 'C07 an error of a fallback / of a later attempt surfaces once (Catch, OnErrorResumeNextWith, Retry)',
+    rrows = [r for r in R.run_kind(ctx, 'resub') if re.search(r'\bop=(Catch|OnErrorResumeNextWith|Retry|RetryWithConfig|While|DoWhile|RepeatWith)\b', r[0])]
+    R.compare(ctx, rrows, lambda d: (flag(d), strip_ctx(d.get('trace')), d.get('again')), 'C07 an error of a fallback / of a later attempt surfaces once (Catch, OnErrorResumeNextWith, Retry)',
               nontrivial=lambda c, gd: gd.get('trace', '-') != '-', max_report=2)
     rows = R.run_kind(ctx, 'fault')
     R.compare(ctx, rows, proj_all, 'C07 fault injection (trace, drops, unhandled hook, escaped panics, teardown count, usability)',
